@@ -23,7 +23,7 @@ def all_sizes():
 
 
 def quick_sizes(seed, k=6):
-    fixed = [(0, 0), (1, 1), (5, 3), (13, 2), (4, 4), (2, 1)]
+    fixed = [(0, 0), (1, 1), (5, 3), (13, 2), (4, 4), (2, 1), (2, 6), (1, 3), (9, 4)]
     rnd = random.Random(seed)
     rest = [s for s in all_sizes() if s not in fixed]
     return fixed + rnd.sample(rest, k)
